@@ -68,6 +68,7 @@ package failsafe
 //@   ensures [C08.cancel.records+C15.cancel.records_latest+C09.cancel_reaches_the_attempt] !was ==> canceled(e.ctx) && cellof(e.canceledResult, *common.PolicyResult) == result
 //@   ensures [C08.cancel.last_result] !was && result != nil ==> e.lastResult == result.Result && e.lastError == result.Error
 //@   ensures [C08.cancel.first_wins] was ==> canceled(e.ctx)
+//@   ensures [C08.cancel.first_cause_kept+C15.cancel.first_cause_kept] was ==> e.lastResult == old(e.lastResult) && e.lastError == old(e.lastError) && (old(cellof(e.canceledResult, *common.PolicyResult)) != nil ==> cellof(e.canceledResult, *common.PolicyResult) == old(cellof(e.canceledResult, *common.PolicyResult))) && ncalls(e.cancelFunc) == 0
 //@   modifies e.lastResult, e.lastError, *e.canceledResult, canceled(e.ctx), calls(e.ctx.Err), calls(e.cancelFunc)
 
 //@ func (*execution).RecordResult
@@ -160,7 +161,7 @@ package failsafe
 //@   atexit asref(result, *execution).copied := false
 //@   requires execWellFormed(e) && !held(e.mtx)
 //@   let c := asref(result, *execution)
-//@   ensures [C08.cancellable+C15.cancel.cell_shared_with_copies] typeis(result, *execution) && fresh(c) && c.cancelFunc != nil && uf("ctxof", c.cancelFunc) == c.ctx && c.canceledResult == e.canceledResult && c.mtx == e.mtx && c.attempts == e.attempts && c.isHedge == e.isHedge
+//@   ensures [C08.cancellable+C15.cancel.cell_shared_with_copies+C17.copy.keeps_hedge_flag] typeis(result, *execution) && fresh(c) && c.cancelFunc != nil && uf("ctxof", c.cancelFunc) == c.ctx && c.canceledResult == e.canceledResult && c.mtx == e.mtx && c.attempts == e.attempts && c.isHedge == e.isHedge
 //@   modifies nothing
 
 // ---------------------------------------------------------------------------------------------
@@ -280,3 +281,33 @@ package failsafe
 //@   ensures [C15.listeners_before_return] (e.onDone != nil ==> tickof(top, 1) < tickof(e.onDone, 1)) && (e.onSuccess != nil && result.SuccessAll ==> tickof(top, 1) < tickof(e.onSuccess, 1))
 //@   havoc
 //@   modifies *
+
+// WithContext: a copy of the executor that differs in the context only (policies and all three listeners kept).
+//@ func (*executor).WithContext
+//@   builder
+//@   requires e != nil
+//@   let c := asref(result, *executor)
+//@   ensures [C16.executor.copy_keeps_listeners+C01.executor.copy_keeps_policies] typeis(result, *executor) && fresh(c) && len(c.policies) == len(e.policies) && (forall j int :: 0 <= j && j < len(e.policies) ==> c.policies[j] == e.policies[j]) && c.onDone == e.onDone && c.onSuccess == e.onSuccess && c.onFailure == e.onFailure && c.ctx == ite(ctx != nil, ctx, e.ctx)
+//@   modifies nothing
+
+// executor construction and listener registration: each setter changes its own listener only
+//@ func NewExecutor
+//@   builder
+//@   let x := asref(result, *executor)
+//@   ensures [C01.executor.new] typeis(result, *executor) && fresh(x) && len(x.policies) == len(policies) && (forall j int :: 0 <= j && j < len(policies) ==> x.policies[j] == policies[j]) && x.ctx == background() && x.onDone == nil && x.onSuccess == nil && x.onFailure == nil
+//@   modifies nothing
+//@ func (*executor).OnDone
+//@   builder
+//@   requires e != nil
+//@   ensures [C16.executor.ondone_registered] e.onDone == listener && e.onSuccess == old(e.onSuccess) && e.onFailure == old(e.onFailure) && result == asiface(e)
+//@   modifies e.onDone
+//@ func (*executor).OnSuccess
+//@   builder
+//@   requires e != nil
+//@   ensures [C16.executor.onsuccess_registered] e.onSuccess == listener && e.onDone == old(e.onDone) && e.onFailure == old(e.onFailure) && result == asiface(e)
+//@   modifies e.onSuccess
+//@ func (*executor).OnFailure
+//@   builder
+//@   requires e != nil
+//@   ensures [C16.executor.onfailure_registered] e.onFailure == listener && e.onDone == old(e.onDone) && e.onSuccess == old(e.onSuccess) && result == asiface(e)
+//@   modifies e.onFailure
